@@ -16,6 +16,8 @@ structure Facts where
   commitChecksErrors : Bool
   /-- `DB.Commit` remembers a failed flush (`flushErr`, refuses to commit again) and a failed version PUT (`unstored`, part of `IsDirty`) -/
   commitRemembersFailure : Bool
+  /-- `VirtualTable.Commit` remembers a failed storage commit (`commitFailed`); `Begin`, `Cursor.Filter` and `Vacuum` reopen the tree from the bucket first (`reopenAfterFailedCommit`) -/
+  failedCommitReopens : Bool
   /-- `moveMergedRoots`: per parent, order of `s.merged.Store` and `DeleteObjectWithContext` -/
   retireOrder : List String
   /-- `moveMergedRoots`: `if newRoot == key { continue }` -/
